@@ -4,9 +4,9 @@
 
    tree = [main, drop, mshape, dshape]
      main[i]  \in {"absent","regular","empty","devnull"}       main file of layer i (1 = lowest)
-     drop[i]  \subseteq 1..7                                   drop-in names present in layer i
-   Names are indices into the pool below, ordered byte-wise by index; names 1..5 carry the
-   suffix ".conf", 6 ("a.conf.bak") and 7 ("conf", not LONGER than the suffix) do not.
+     drop[i]  \subseteq 1..9                                   drop-in names present in layer i
+   Names are indices into the pool below, ordered byte-wise by index; whether a name carries the
+   suffix ".conf" is computed (Carries): 1 (".conf" itself), 7 ("a.conf.bak") and 8 ("conf") do not.
    A file is identified by f = [l |-> layer, r |-> role]  (r = 0: main file, r > 0: drop-in name).
    Content is a function of identity so that provenance shows in the result.
 
@@ -21,15 +21,18 @@ EXTENDS Merge, FiniteSetsExt, SequencesExt
 
 NLy(tree) == Len(tree.main)         \* number of layers
 MainKinds == {"absent", "regular", "empty", "devnull"}
-NameStr == << <<46,104,46,99,111,110,102>>,            \* 1 .h.conf      (dot file, carries the suffix)
-              <<49,48,45,97,46,99,111,110,102>>,        \* 2 10-a.conf    (byte order # numeric order)
-              <<57,45,98,46,99,111,110,102>>,           \* 3 9-b.conf
-              <<66,46,99,111,110,102>>,                 \* 4 B.conf       (byte order # case-folding order)
-              <<97,46,99,111,110,102>>,                 \* 5 a.conf
-              <<97,46,99,111,110,102,46,98,97,107>>,    \* 6 a.conf.bak   (does not end with the suffix)
-              <<99,111,110,102>> >>                     \* 7 conf         (not longer than the suffix)
+NameStr == << <<46,99,111,110,102>>,                   \* 1 .conf        (exactly the suffix: NOT longer than it)
+              <<46,104,46,99,111,110,102>>,            \* 2 .h.conf      (dot file, carries the suffix)
+              <<49,48,45,97,46,99,111,110,102>>,        \* 3 10-a.conf    (byte order # numeric order)
+              <<57,45,98,46,99,111,110,102>>,           \* 4 9-b.conf
+              <<66,46,99,111,110,102>>,                 \* 5 B.conf       (byte order # case-folding order)
+              <<97,46,99,111,110,102>>,                 \* 6 a.conf
+              <<97,46,99,111,110,102,46,98,97,107>>,    \* 7 a.conf.bak   (does not end with the suffix)
+              <<99,111,110,102>>,                       \* 8 conf         (shorter than the suffix)
+              <<195,169,46,99,111,110,102>> >>          \* 9 e-acute.conf (UTF-8 bytes >= 0x80 sort AFTER all ASCII names)
+NNames == 9
 Suffix == <<46,99,111,110,102>>
-ASSUME \A i \in 1..6 : ByteLess(NameStr[i], NameStr[i+1])
+ASSUME \A i \in 1..(NNames-1) : ByteLess(NameStr[i], NameStr[i+1])
 \* check_conf_dir: strictly longer than the suffix and ending with it
 Carries(n) == Len(Suffix) < Len(NameStr[n]) /\ EndsWith(NameStr[n], Suffix)
 
@@ -95,7 +98,7 @@ Read(tree, faults) ==
   ELSE LET U == Unmasked(K) IN
        [rc |-> "ECONF_SUCCESS", rcs |-> {"ECONF_SUCCESS"}, log |-> K, errfile |-> <<>>, hist |-> K,
         cfg |-> FoldMerge([j \in 1..Len(U) |-> Content(tree, U[j])])]
-AllFiles(tree) == {File(l, r) : l \in 1..NLy(tree), r \in 0..7}
+AllFiles(tree) == {File(l, r) : l \in 1..NLy(tree), r \in 0..NNames}
 NoFaults(tree) == [f \in AllFiles(tree) |-> {}]
 
 \* ---------- the sentence of C01 ----------
@@ -105,7 +108,7 @@ FoldOv(ms) == IF Len(ms) = 1 THEN ms[1] ELSE Override(FoldOv(SubSeq(ms, 1, Len(m
 HasMain(tree) == {i \in 1..NLy(tree) : tree.main[i] # "absent"}
 RefMain(tree) == IF HasMain(tree) = {} THEN <<>> ELSE <<MapOf(Content(tree, File(Max(HasMain(tree)), 0)))>>
 \* effective drop-ins: carry the suffix; no higher layer holds the same name
-Effective(tree) == {<<i, n>> \in (1..NLy(tree)) \X (1..7) :
+Effective(tree) == {<<i, n>> \in (1..NLy(tree)) \X (1..NNames) :
                       n \in tree.drop[i] /\ Carries(n) /\ \A j \in (i+1)..NLy(tree) : n \notin tree.drop[j]}
 EffSeq(tree) == SetToSortSeq(Effective(tree), LAMBDA x, y : x[1] < y[1] \/ (x[1] = y[1] /\ x[2] < y[2]))
 NothingThere(tree) == HasMain(tree) = {} /\ \A i \in 1..NLy(tree) : {n \in tree.drop[i] : Carries(n)} = {}
